@@ -25,8 +25,8 @@ Empty == [x \in {} |-> 0]
 TraceInit == /\ l = 1 /\ tmfs = 16384
              /\ body = Empty /\ sent = Empty /\ ended = Empty /\ sgrant = Empty
              /\ iws = 65535 /\ cgrant = 65535 /\ csent = 0 /\ lastN = 0
-             /\ swin = Empty /\ cwin = 0 /\ asleep = Empty /\ over = FALSE /\ hist = <<>> /\ flushed = FALSE /\ cfg = 0
-Unused == UNCHANGED <<swin, cwin, asleep, over, hist, flushed, cfg>>
+             /\ swin = Empty /\ cwin = 0 /\ asleep = Empty /\ over = FALSE /\ hist = <<>> /\ flushed = FALSE /\ cfg = 0 /\ mfs = 0 /\ big = FALSE
+Unused == UNCHANGED <<swin, cwin, asleep, over, hist, flushed, cfg, mfs, big>>
 
 TConn == /\ IsEvent("conn")
          /\ body' = Empty /\ sent' = Empty /\ ended' = Empty /\ sgrant' = Empty
